@@ -10,6 +10,7 @@ RULE = ('one record per history of {process, process_mut, seek/counter preset, c
         '(variant, sequence of op kinds with offset/length classes); in-place calls also go through arbitrarily aligned sub-slices of one buffer')
 ASSUMPTIONS = ['same keystream models as C03']
 THOROUGH_ROUNDS = 40   # thorough tier: generator passes with derived seeds (runner.gen_rounds)
+EXTRA_CFGS = ['f32']   # the workload is also executed by the force-32bits build of the library; results must not change (runner.standard_check)
 FLOORS = {'evaluations': 2500, 'distinct': 1500,
           'coverage': {'pm:off=mid:len>+64rem': 10, 'p:off=63:len=rem': 3, 'seek:off=mid': 10, 'clone:off=mid': 10, 'pms:short-piece-at-unaligned-address': 50,
                        'drg:fb:prior=nonzero:cross': 10, 'drg:fs:prior=nonzero:within': 10}}
